@@ -191,16 +191,20 @@ OPS = ["Nil", "Add", "Sub", "Mul", "Div", "Neg", "Equals", "NotEquals", "Less", 
 
 
 def op_templates(text):
+    """for every IR arm of interest: the first string literal of the arm (its format string), whether the arm
+    is written with the ii!/iis! macros or with write!"""
     rows = []
-    for op in OPS:
-        m = re.search(r"IR::%s\([^)]*\)\s*=>\s*\{?\s*iis?!\(\s*self,\s*t,\s*\"((?:[^\"\\]|\\.)*)\"" % op, text, re.S)
+    for op in OPS + ["AssignIndex"]:
+        m = re.search(r"\n\s*IR::%s\b[^=]*=>" % op, text)
         if not m:
-            raise gen_tables.Untranslatable("lua.rs: no emission template found for IR::%s" % op)
-        rows.append((op, m.group(1).replace('\\"', '"')))
-    m = re.search(r"IR::AssignIndex\(.*?write!\(self\.out,\s*\"((?:[^\"\\]|\\.)*)\"", text, re.S)
-    if not m:
-        raise gen_tables.Untranslatable("lua.rs: no emission template found for IR::AssignIndex")
-    rows.append(("AssignIndex", m.group(1)))
+            raise gen_tables.Untranslatable("lua.rs: no arm found for IR::%s" % op)
+        rest = text[m.end():]
+        nxt = re.search(r"\n\s*IR::[A-Za-z]+\b[^=\n]*=>", rest)
+        body = rest[:nxt.start()] if nxt else rest
+        lit = re.search(r'"((?:[^"\\]|\\.)*)"', body)
+        if not lit:
+            raise gen_tables.Untranslatable("lua.rs: no format string in the arm of IR::%s" % op)
+        rows.append((op, lit.group(1).replace('\\"', '"')))
     return rows
 
 
